@@ -149,7 +149,8 @@ theorem r_eq (a b : ℝ) : feq a b = decide (a = b) := rfl
 /-- the normalised total in exact arithmetic: `p·π/d` shifted up by whole turns until non-negative -/
 theorem newTotal_real (p d : ℝ) :
     ∃ n : ℕ, Angle.newTotal p d = p * Real.pi / d + (n : ℝ) * (2 * Real.pi) ∧ 0 ≤ Angle.newTotal p d ∧
-      Angle.newTotal p d ≤ |p * Real.pi / d| + 2 * Real.pi := by
+      Angle.newTotal p d ≤ |p * Real.pi / d| + 2 * Real.pi ∧
+      (p * Real.pi / d < 0 → Angle.newTotal p d < 2 * Real.pi) ∧ (0 ≤ p * Real.pi / d → n = 0) := by
   have hpi := Real.pi_pos
   set t : ℝ := p * Real.pi / d with ht
   have hform : Angle.newTotal p d =
@@ -174,15 +175,14 @@ theorem newTotal_real (p d : ℝ) :
     have hc1' : |t| ≤ (n : ℝ) * (2 * Real.pi) := by rwa [div_le_iff₀ (by positivity)] at hc1
     have hge : 0 ≤ t + (n : ℝ) * 4 * (Real.pi / 2) := by nlinarith
     rw [max_eq_left hge]
-    refine ⟨n, by ring, hge, ?_⟩
-    have : (n : ℝ) * (2 * Real.pi) < |t| + 2 * Real.pi := by
+    have hlt : (n : ℝ) * (2 * Real.pi) < |t| + 2 * Real.pi := by
       have := mul_lt_mul_of_pos_right hc2 (show (0:ℝ) < 2 * Real.pi by positivity)
       rw [add_mul, div_mul_cancel₀ _ (by positivity : (2 * Real.pi) ≠ 0), one_mul] at this
       exact this
-    nlinarith
+    refine ⟨n, by ring, hge, by nlinarith, fun _ => by nlinarith, fun hc => absurd hc (not_le.mpr h)⟩
   · rw [if_neg h]
     push Not at h
-    exact ⟨0, by simp, h, by rw [abs_of_nonneg h]; linarith⟩
+    exact ⟨0, by simp, h, by rw [abs_of_nonneg h]; linarith, fun hc => absurd hc (not_lt.mpr h), fun _ => rfl⟩
 
 /-- **what `Angle::new` denotes, in exact arithmetic**: the total is `p·π/d` up to whole turns and a snap slack below `1e-10`;
     the result is canonical -/
@@ -243,7 +243,7 @@ theorem new_total_real {p d : ℝ} (hb : |p * Real.pi / d| ≤ 2 ^ 42) :
       show ((k.toNat : ℕ) : ℝ) * (Real.pi / 2) + (zero : ℝ) = _
       rw [hcast, hd2, hk, lit_real.1]; push_cast; ring
   · rw [if_neg hfast]
-    obtain ⟨n, hnt, hnt0, hntb⟩ := newTotal_real p d
+    obtain ⟨n, hnt, hnt0, hntb, _, _⟩ := newTotal_real p d
     have hbig : val (F := ℝ) (Angle.newTotal p d) ≤ 2 ^ 48 := by
       show Angle.newTotal p d ≤ 2 ^ 48
       have : (2:ℝ) ^ 42 + 2 * 4 ≤ 2 ^ 48 := by norm_num
